@@ -42,7 +42,7 @@ class Eval:
         e = strip_refs(e)
         while isinstance(e, dict) and e.get("k") == "un" and e.get("op") == "Deref":
             e = strip_refs(e["e"])
-        return isinstance(e, dict) and e.get("k") == "path" and e.get("res") == "local" and e.get("path") == v
+        return isinstance(e, dict) and e.get("k") == "path" and e.get("res") == "local" and (e.get("path") == v or e.get("path") in getattr(self, "aliases", ()))
 
     def irrefutable(self, p):
         k = p.get("k")
@@ -284,6 +284,12 @@ class Eval:
         if k == "let":
             init = st.get("init")
             if init is None:
+                return K
+            if st.get("else") is None and isinstance(st.get("pat"), dict) and st["pat"].get("k") == "bind" and st["pat"].get("sub") is None and self.is_val(init, v):
+                # `let x = value;` — another name for the tracked value
+                if not hasattr(self, "aliases"):
+                    self.aliases = set()
+                self.aliases.add(st["pat"]["name"])
                 return K
             if st.get("else") is not None:
                 K0 = self.passk([init], K, v, rets)
